@@ -367,7 +367,14 @@ func (env *Env) evalField(n *EField) TV {
 				if _, local, _ := e.p.structSortName(t); !local {
 					evalFail("field of extern struct %s", t)
 				}
-				return TV{T: Select(e.heapGet(env.state, e.p.fieldKey(t, i)), x.T), Typ: ft}
+				fv := Select(e.heapGet(env.state, e.p.fieldKey(t, i)), x.T)
+				if !env.bound {
+					// a field of integer type holds a value of that type in every heap version
+					if _, _, isInt := intRange(ft); isInt {
+						e.assume(e.typeInv(fv, ft, env.state.now))
+					}
+				}
+				return TV{T: fv, Typ: ft}
 			}
 			return TV{T: e.structSel(x.T, t, i), Typ: ft}
 		}
@@ -590,6 +597,18 @@ func (env *Env) evalCall(n *ECall) TV {
 		e.declareFun("runes_of", []Sort{SStr}, ArraySort(SInt, SInt))
 		e.declareFun("str_from_runes", []Sort{ArraySort(SInt, SInt), SInt, SInt}, SStr)
 		return TV{T: App(SStr, "str_from_runes", App(ArraySort(SInt, SInt), "runes_of", arg(0).T), arg(1).T, Sub(arg(2).T, arg(1).T)), Typ: types.Typ[types.String]}
+	case "prefixat":
+		// prefixat(s, i, "lit"): the bytes of lit stand at s[i:], i.e. strings.HasPrefix(s[i:], lit)
+		sx, ok := n.Args[2].(*EStr)
+		if !ok {
+			evalFail("prefixat: literal expected")
+		}
+		sv, iv := arg(0).T, arg(1).T
+		conds := []Term{Ge(iv, IntLit(0)), Le(Add(iv, IntLit(int64(len(sx.V)))), StrLen(sv))}
+		for k := 0; k < len(sx.V); k++ {
+			conds = append(conds, Eq(StrAt(sv, Add(iv, IntLit(int64(k)))), IntLit(int64(sx.V[k]))))
+		}
+		return TV{T: And(conds...), Typ: types.Typ[types.Bool]}
 	case "flit":
 		// flit("1.5"), flit("-1.0"): a float64 literal
 		sx, ok := n.Args[0].(*EStr)
